@@ -10,7 +10,7 @@ RULE = ("histories with redundant writes (same value in the same step, the next 
         "consecutive changes with equal rendering, every bit-vector value has exactly the declared width and the smallest "
         "sufficient kind, reals report Real and strings String; plus equality with the meaning of the history. "
         "Non-trivial: the history contains at least one redundant write or at least two different kinds for one signal.")
-ASSUMPTIONS = ["slices (signals derived as sub-ranges) are covered by C13; FST/GHW containers by C10/C11"]
+ASSUMPTIONS = ["the GHW alias arithmetic that chooses the sub-range of a sliced signal is covered by C13; FST/GHW containers by C10/C11"]
 TRUSTED_BASE = ["Python monitor c06.canonical", "Python oracle gen.expected_obs"]
 
 
@@ -44,6 +44,26 @@ def canonical(widths):
                     return "signal %d: real variable reports kind %s" % (si, kind)
                 elif w[0] == "s" and kind != "S":
                     return "signal %d: string variable reports kind %s" % (si, kind)
+        return None
+    return pred
+
+
+def slice_canonical(width):
+    """predicate on the observation of the `slice` harness command (`p=<parent> s=<slice>`): the sliced signal is canonical"""
+    def pred(obs):
+        if obs in ("PANIC", "ERR", "CRASH-OR-HANG"):
+            return "implementation " + obs
+        body = obs.split(" s=", 1)[1] if " s=" in obs else ""
+        prev = None
+        for e in ([] if body in ("", "-") else body.split(",")):
+            idx, kind, val = e.split(":", 2)
+            if prev is not None and prev == val:
+                return "sliced signal: two consecutive changes carry the same value %s" % val[:40]
+            prev = val
+            if len(val) != width:
+                return "sliced signal: value of width %d, slice width %d" % (len(val), width)
+            if kind != gen.min_kind(val):
+                return "sliced signal: value %s reported as kind %s" % (val[:40], kind)
         return None
     return pred
 
@@ -156,6 +176,19 @@ def run(res, rng, tier, model_ok, replay=None):
                 kl = "vcd-" + mode.split(":")[0]
             cases.append({"line": line, "expect": exp, "pred": canonical(widths), "key": key, "klass": kl})
         cases += fstw_cases(rng, 500 if tier == "quick" else 10000)
+        # signals derived by slicing: parents that mix kinds, so that a value's x/z/9-state characters often lie outside
+        # the slice (the slice has to be re-minimised whatever the kind of the parent value)
+        from . import c13
+        for _ in range(400 if tier == "quick" else 6000):
+            width = rng.choice([3, 4, 5, 8, 9, 12, 16, 17, 33])
+            msb = rng.randrange(width)
+            lsb = rng.randint(0, msb)
+            if msb - lsb + 1 >= width:
+                continue
+            ch = c13.mk_changes(rng, width, rng.choice([[2, 4, 9], [4, 9], [2, 4], [2, 9]]), rng.randint(3, 8))
+            line = "slice %d %d %d %s" % (width, msb, lsb, ",".join("%x:%s" % c for c in ch))
+            cases.append({"line": line, "expect": c13.expected_slice(width, msb, lsb, ch), "pred": slice_canonical(msb - lsb + 1),
+                          "key": ("slice", line), "klass": "sliced"})
         # string values that are not valid UTF-8 (each non-ASCII byte followed by an ASCII one, so that the lossy
         # conversion is one U+FFFD per byte); the model does not cover from_utf8_lossy: implementation + oracle only
         lat = []
